@@ -71,6 +71,17 @@ contract(
 )
 
 
+def _zeroed(rng, v):
+    """visibilities with some real parts exactly 0 next to a non-zero imaginary part, and vice versa (0 + 2i is a visibility)"""
+    for k in range(v.shape[0]):
+        r = rng.random()
+        if r < 0.2:
+            v[k, 0] = 0.0
+        elif r < 0.3:
+            v[k, 1] = 0.0
+    return v
+
+
 def _g_gu(rng, tier, extra):
     for _ in range(gens.budget(tier, 150, 2000)):
         n, k = rng.randint(1, 5), rng.randint(1, 4)
@@ -294,7 +305,7 @@ def _g_adj(rng, tier):
     for _ in range(gens.budget(tier, 150, 2000)):
         n, k = rng.randint(1, 5), rng.randint(1, 4)
         yield {"n_pixels": rng.choice([n, n, rng.randint(0, n)]), "grid_radians": gens.reals(rng, (n, 2), -1e-5, 1e-5, special=False),
-               "uv_wavelengths": _g_uv(rng, k), "visibilities": gens.reals(rng, (k, 2), -5, 5, special=False)}
+               "uv_wavelengths": _g_uv(rng, k), "visibilities": _zeroed(rng, gens.reals(rng, (k, 2), -5, 5, special=False))}
 
 
 def _g_tmm_pre(rng, tier):
